@@ -492,6 +492,40 @@ class _Resampled:
         return sl[2] if sl[2] is not None else F.const(1)
 
 
+def _last_axis_mean(mu, data):
+    """True / False / None (not understood): mu is the mean of `data` along the last axis, kept as a trailing axis of length 1"""
+    def is_mean(v, keep):
+        u = S.unfn(v)
+        if u is None or u[0] != "call:np.mean":
+            return False
+        a = placed("np.mean", u[1])
+        kd = a.get("keepdims")
+        return eq(a.get("a"), data) and int_of(a.get("axis")) == -1 and ((kd is not None and is_sym(kd, "True")) if keep else (kd is None or is_sym(kd, "False"))) \
+            and set(a) <= {"a", "axis", "keepdims"}
+    if not israt(mu):
+        return None
+    if is_mean(mu, True):
+        return True
+    ix = un(mu, "idx")
+    if ix is not None and is_mean(ix[0], False):
+        parts = ix_parts(ix[1])
+        if len(parts) == 2 and is_sym(parts[0], "Ellipsis") and (is_sym(parts[1], "None") or is_sym(parts[1], "np.newaxis")):
+            return True
+    ex = un(mu, "call:np.expand_dims")
+    if ex is not None and is_mean(ex[0], False):
+        pos, kw_ = S.call_args(ex[1:])
+        ax = kw_.get("axis", pos[0] if pos else None)
+        if ax is not None and int_of(ax) == -1:
+            return True
+    for av, nm, a in find_atoms(mu, lambda n, a: n == "call:np.mean"):
+        pl = placed("np.mean", a)
+        if eq(pl.get("a"), data) and int_of(pl.get("axis")) not in (None, -1):
+            return False            # a mean along another axis
+    if find_atoms(mu, lambda n, a: n in ("call:np.mean", "call:np.average", "call:np.sum", "call:np.nanmean")):
+        return None
+    return False
+
+
 def r3_resample(ctx):
     """dsp.resample, evaluated in the regimes (p', q' > 1), (q' = 1), (t given); p' = p / gcd, q' = q / gcd.  The lag bookkeeping is generic:
     whatever routine filters (lfilter on a zero-stuffed, zero-padded signal: output sample k is full-rate sample k; upfirdn: output sample k is
@@ -589,15 +623,18 @@ def r3_resample(ctx):
                "samples are retained")
         dbg = {"stop - start": _short(D.stop - D.start) if D.stop is not None else None, "fir": _short(fir, 200)}
     ctx.check(ok, msg, R.ret_node(), None if ok else dbg)
-    demeaned = "data - np.mean(data, axis=-1, keepdims=True)"
+    mean_ok = _last_axis_mean(R.E("data") - D.signal, R.E("data")) if israt(D.signal) else None
+    if mean_ok is None:
+        ctx.error("resample: what is removed from the data before filtering (expected: the mean along the last axis)", fn, _short(D.signal))
     if D.routine == "lfilter":
         zshape = un(D.buffer, "zeros") if D.buffer is not None else None
-        ok = D.buffer is not None and zshape is not None and eq(_last_dim(D.buffer), R.E("data.shape[-1] * P", P=Pr)) and eq(ss, Pr) and R.same(D.signal, demeaned)
+        ok = D.buffer is not None and zshape is not None and eq(_last_dim(D.buffer), R.E("data.shape[-1] * P", P=Pr)) and eq(ss, Pr) and mean_ok
         msg = "resample: zero stuffing places the (mean-removed) samples every p-th slot of a zero array of length ln p (original samples are kept when upsampling)"
     else:
-        ok = eq(ss, Pr) and R.same(D.signal, demeaned)
+        ok = eq(ss, Pr) and mean_ok
         msg = "resample: the (mean-removed) samples are up-sampled by p with zeros (original samples are kept when upsampling)"
-    ctx.check(ok, msg, fn, None if ok else {"buffer": _short(D.buffer), "slot": _short(D.slot), "signal": _short(D.signal)})
+    if mean_ok is not None:
+        ctx.check(bool(ok), msg, fn, None if ok else {"buffer": _short(D.buffer), "slot": _short(D.slot), "signal": _short(D.signal)})
 
 
 # =============================================================================================================================== R4 rescale
@@ -664,18 +701,33 @@ def _rescale_regime(ctx, fn, oned):
     bufs = []
     trips = [R.E(ncol), R.E("len(np.transpose(c))", c=curve)] if curve is not None else [R.E(ncol)]
     for c in ip:
-        cell = next((x for x in R.cells if eq(x.val, c.value)), None)
         loop = c.loops[-1] if c.loops else None
-        if cell is None or loop is None:
+        if loop is None:
             bufs.append(None)
             continue
-        sp = ix_parts(cell.ix) if israt(cell.ix) else []
-        good = len(sp) == 2 and eq(sp[0], S.FULL) and len(cparts) == 2 and eq(sp[1], cparts[1]) and eq(sp[1], loop.k) \
-            and un(_strip_carried(cell.old), "zeros") is not None and any(eq(loop.n, w) for w in trips)
-        bufs.append((F.fn("loopres", loop.k, S.as_rat(loop.n), cell.new), good, cell))
+        per_col = len(cparts) == 2 and eq(cparts[1], loop.k) and any(eq(loop.n, w) for w in trips)
+        cell = next((x for x in R.cells if eq(x.val, c.value)), None)
+        if cell is not None:
+            # stored into column k of a zero array inside the loop
+            sp = ix_parts(cell.ix) if israt(cell.ix) else []
+            good = per_col and len(sp) == 2 and eq(sp[0], S.FULL) and eq(sp[1], loop.k) and un(_strip_carried(cell.old), "zeros") is not None
+            bufs.append((F.fn("loopres", loop.k, S.as_rat(loop.n), cell.new), good, cell.node, cell.ix))
+            continue
+        # the columns collected by a comprehension and stacked:  column_stack([...]) / array([...]).T / stack([...], axis=1)
+        comp = next((av for av, nm, a_ in find_atoms(ns[0], lambda n, a_: n == "comp" and eq(a_[2], c.value))), None)
+        hold = None
+        if comp is not None:
+            for av, nm, a_ in find_atoms(ns[0], lambda n, a_: n in ("call:np.column_stack", "call:np.transpose", "call:np.stack") and a_ and not isinstance(a_[0], str) and eq(a_[0], comp)):
+                kw_ = S.call_args(a_)[1]
+                if nm != "call:np.stack" or ("axis" in kw_ and int_of(kw_["axis"]) in (1, -1)):
+                    hold = av
+        if hold is None:
+            bufs.append(None)
+            continue
+        bufs.append((hold, per_col and eq(un(comp, "comp")[0], loop.k), c.node, loop.k))
     ok = all(x is not None and x[1] for x in bufs) and ip[0].loops == ip[1].loops
     _chk(ctx, ok, f"{tag}: for every column i of the PSD, the curve's column i at the lower / upper edges is stored in column i of a zero array (one array per edge set)",
-         bufs[0][2].node if bufs[0] else fn, None if ok else [(_short(x[2].ix), _short(x[2].old)) if x else None for x in bufs], [x[2].ix for x in bufs if x] + [c.value for c in ip])
+         bufs[0][2] if bufs[0] else fn, None if ok else [_short(x[3]) if x else None for x in bufs], [x[3] for x in bufs if x] + [c.value for c in ip])
     if not ok:
         return
     B1, B2 = bufs[0][0], bufs[1][0]
